@@ -560,6 +560,86 @@ func c01Straddle(c *vk.Ctx) {
 	}
 }
 
+// c01ManyPending: hundreds of connections that have connected but not yet sent their opening
+// bytes (idle clients, slow links, a scanner holding sockets) are in the authenticator at once;
+// a valid client that shows up meanwhile authenticates like on an idle server, and so do the
+// pending ones once their bytes arrive.
+func c01ManyPending(c *vk.Ctx) {
+	r := c.Rng
+	for round := 0; round < c.N(2, 6); round++ {
+		keys := RandKeys(r, 2+r.Intn(10), nil, 0.1)
+		auth := service.NewShadowsocksStreamAuthenticator(BuildCipherList(keys), nil, nil, nil)
+		pool := c01Pool(r)
+		plaintext := append(sscodec.AddrIP(net.IPv4(8, 8, 4, 4), 443, false), randBytes(r, r.Intn(60))...)
+		nPending := 120 + r.Intn(200)
+		type pend struct {
+			g     *gatedConn
+			key   *KeySpec
+			id    string
+			ok    bool
+			done  chan struct{}
+			valid bool
+		}
+		ps := make([]*pend, nPending)
+		for i := range ps {
+			p := &pend{done: make(chan struct{})}
+			var stream []byte
+			if i%2 == 0 {
+				k := keys[r.Intn(len(keys))]
+				p.key, p.valid = &k, true
+				stream, _ = buildOpening(r, k, plaintext)
+			} else {
+				stream = randBytes(r, 50+r.Intn(100))
+			}
+			p.g = &gatedConn{memConn: memConn{r: bytes.NewReader(stream), remote: pool[r.Intn(len(pool))]}, gate: make(chan struct{}), reading: make(chan struct{})}
+			ps[i] = p
+			go func() {
+				id, inner, cerr := auth(p.g)
+				p.id, p.ok = id, cerr == nil && inner != nil
+				close(p.done)
+			}()
+		}
+		stuck := 0
+		for _, p := range ps {
+			select {
+			case <-p.g.reading:
+				stuck++
+			case <-p.done: // refused without reading anything
+			case <-time.After(10 * time.Second):
+			}
+		}
+		c.Progress("C01 many pending: %d connections waiting for their first bytes", stuck)
+		for pos, k := range keys {
+			st, _ := buildOpening(r, k, plaintext)
+			id, inner, cerr := auth(&memConn{r: bytes.NewReader(st), remote: pool[r.Intn(len(pool))]})
+			c.Eval(fmt.Sprintf("many-pending|valid|%s|pending=%s", k.Cipher, sizeBucket(stuck)))
+			if cerr != nil || inner == nil || !IDsFor(keys, k)[id] {
+				c.Violation("C01/valid-key-rejected", map[string]any{"key": k, "pos": pos, "err": fmt.Sprint(cerr), "connections_waiting_for_their_first_bytes": stuck})
+				for _, p := range ps {
+					close(p.g.gate)
+				}
+				return
+			}
+			c.Count("valid_authenticated_with_many_pending", 1)
+		}
+		for _, p := range ps {
+			close(p.g.gate)
+		}
+		for _, p := range ps {
+			<-p.done
+			if p.valid && (!p.ok || !IDsFor(keys, *p.key)[p.id]) {
+				c.Violation("C01/valid-key-rejected", map[string]any{"key": *p.key, "phase": "one of many connections whose first bytes arrived late", "pending": nPending})
+				return
+			}
+			if !p.valid && p.ok {
+				c.Violation("C01/invalid-input-authenticated", map[string]any{"phase": "many pending", "id": p.id})
+				return
+			}
+		}
+		c.Max("max_connections_pending_in_the_authenticator", int64(stuck))
+	}
+}
+
 // c01Rotation: the list is replaced by one in which some ids are kept but their secret or
 // cipher changed (key rotation under the same id), some keys are dropped and some added.
 // Afterwards exactly the new material authenticates.
@@ -691,9 +771,11 @@ func init() {
 			c.Require("big_concurrent_authenticated")
 			c01Run(c)
 			c.Require("rotations_checked")
+			c.Require("valid_authenticated_with_many_pending")
 			c01Straddle(c)
 			c01Rotation(c)
 			c01BigConcurrent(c)
+			c01ManyPending(c)
 		},
 	})
 }
